@@ -903,6 +903,12 @@ func (fc *funcContext) delegatedCall(expr *ast.CallExpr) (callable *expression, 
 		return callable, arglist
 	}
 
+	if fun, ok := expr.Fun.(*ast.Ident); ok && isBuiltin && fun.Name == "recover" {
+		// `defer recover()` / `go recover()`: recover is not called by a deferred
+		// function here, so it returns nil and does not stop a panic.
+		return fc.formatExpr("function() { }"), fc.formatExpr("[]")
+	}
+
 	// Since some builtins or js.Object methods may not transpile into
 	// callable expressions, we need to wrap then in a proxy lambda in order
 	// to push them onto the deferral stack.
